@@ -47,16 +47,24 @@ def probe(ctx, family, cases, corrupt, judge_idx, k=16, once=True):
     if not altered:
         return
     _DONE.add(family)
-    rej = judge_idx(altered)
+    try:
+        rej = judge_idx(altered)
+    except tlc.TLCError as ex:
+        ctx.cover.setdefault('canary_failures', []).append('binding canary (%s): TLC failed on the altered cases: %s' % (family, str(ex)[:1500]))
+        return
     stat = {'altered': len(altered), 'rejected': len(rej), 'must_reject': sum(certain),
             'must_reject_rejected': sum(1 for i, ce in enumerate(certain) if ce and i in rej)}
     ctx.cover.setdefault('binding_canaries', {})[family] = stat
     missed = [i for i, ce in enumerate(certain) if ce and i not in rej]
+    # a failed canary never pre-empts a verdict: it is reported by the runner (exit 2) only when the
+    # check found no violation to report
     if missed:
-        raise tlc.TLCError('binding canary (%s): the specification ACCEPTED an observation altered against the property: %r'
-                           % (family, _brief(altered[missed[0]])))
-    if not rej:
-        raise tlc.TLCError('binding canary (%s): none of %d altered observations was rejected' % (family, len(altered)))
+        ctx.cover.setdefault('canary_failures', []).append(
+            'binding canary (%s): the specification ACCEPTED an observation altered against the property: %s'
+            % (family, _brief(altered[missed[0]])))
+    elif not rej:
+        ctx.cover.setdefault('canary_failures', []).append(
+            'binding canary (%s): none of %d altered observations was rejected' % (family, len(altered)))
 
 
 def _brief(c):
